@@ -120,6 +120,12 @@ def run(tier, seed):
         {"id": "job_ok", "no_provider": True, "input": "after",
          "pre": [{"do": "post_message_wait", "content": "m1"}, {"do": "post_message_wait", "content": "m2"}, {"do": "auto"}, {"do": "schedule"}], "_thread": None},
     ]
+    # operations on the thread AFTER a run has ended (its cursor carries the run's id) must not add frames to that run
+    sse = runloop.sse
+    rid_resp = {"status": 200, "chunks": [sse({"type": "response.created", "response": {"id": "resp_a"}}) + sse({"type": "response.output_text.delta", "delta": "ok"}) + "data: [DONE]\n\n"]}
+    extra.append({"id": "after_run_ops", "script": [rid_resp, rid_resp, rid_resp], "input": "third",
+                  "pre": [{"do": "post_message_wait", "content": "first"}, {"do": "rotate"}, {"do": "post_message_wait", "content": "second"},
+                          {"do": "checkpoint_last_message"}, {"do": "rotate"}, {"do": "auto"}, {"do": "schedule"}], "_thread": None})
     for e in extra:
         e.setdefault("linked", True)
         e.setdefault("timeout_ms", 20000)
